@@ -5,7 +5,7 @@ set -u
 P=$1; I=$2; shift 2
 CHECKS=${@:-$P}
 OUT=/tmp/wt/out_$P; [ -d "$OUT" ] || OUT=/verif/seeded/_candidates/out_$P
-NAME=${P}_$I
+NAME=${P}_${SEED_SUFFIX:-}$I
 D=$(mktemp -d /tmp/seed_XXXXXX)
 rsync -a --exclude .git --exclude tests/output /repo/ "$D/"
 cd "$D"
